@@ -64,14 +64,20 @@ type Run struct {
 }
 
 // Start parses the common flags. Extra flags must be registered before calling it.
+var (
+	tier = flag.String("tier", envOr("VERIF_TIER", "quick"), "quick|thorough")
+	seed = flag.Int64("seed", envInt("VERIF_SEED", 1), "PRNG seed")
+	ev   = flag.String("evidence", "", "evidence file (default /verif/evidence/<id>.json)")
+	rd   = flag.String("replays", "/verif/replays", "replay dir")
+	kf   = flag.String("known", "/verif/known_findings.json", "known findings file")
+)
+
 func Start(id, level string) *Run {
-	tier := flag.String("tier", envOr("VERIF_TIER", "quick"), "quick|thorough")
-	seed := flag.Int64("seed", envInt("VERIF_SEED", 1), "PRNG seed")
-	ev := flag.String("evidence", "/verif/evidence/"+id+".json", "evidence file")
-	rd := flag.String("replays", "/verif/replays", "replay dir")
-	kf := flag.String("known", "/verif/known_findings.json", "known findings file")
 	if !flag.Parsed() {
 		flag.Parse()
+	}
+	if *ev == "" {
+		*ev = "/verif/evidence/" + id + ".json"
 	}
 	if *tier != "quick" && *tier != "thorough" {
 		*tier = "quick"
